@@ -34,6 +34,8 @@ def rules(t):
         r.site(s); f = s.fn
         grown = [x for x in t.stores(NS, "clients", f)]
         guarded = [br for br in t.branches(f) if br["kind"] == "bool" and br["cond"][0] == "cmp" and "clients" in fmt(br["raw"]) and "len" in fmt(br["raw"])]
+        ext = [c_ for c_ in t.calls(r"::extend$|::resize_with$", f) if "clients" in fmt(t.arg(c_, 0)) and (re.search(r"saturating_sub|SubWithOverflow|checked_sub", fmt(t.arg(c_, 1))) or method_of(callee_name(c_.node)) == "resize_with")]
+        if ext: continue
         if not grown: r.bad(f"{f.path}|no-resize", s, "max_clients can be raised above the number of client slots: later handshakes are denied although the limit allows them")
         elif not any("resize" in fmt(t.stored(x)) or t.mentions_call(t.stored(x), r"into_boxed_slice$|resize") for x in grown): r.bad(f"{f.path}|resize-shape", s, "clients replaced but not resized to the new limit")
     out.append(r)
